@@ -11,13 +11,12 @@ import (
 	"time"
 
 	apierrors "k8s.io/apimachinery/pkg/api/errors"
+	"k8s.io/apimachinery/pkg/labels"
 	metav1 "k8s.io/apimachinery/pkg/apis/meta/v1"
 
 	proxyv1alpha1 "github.com/kubewharf/kubegateway/pkg/apis/proxy/v1alpha1"
 	"github.com/kubewharf/kubegateway/pkg/ratelimiter/limiter"
 	"github.com/kubewharf/kubegateway/pkg/ratelimiter/store/flowcontrol"
-	k8sstore "github.com/kubewharf/kubegateway/pkg/ratelimiter/store/k8s"
-	"github.com/kubewharf/kubegateway/pkg/ratelimiter/store/local"
 	"github.com/kubewharf/kubegateway/pkg/ratelimiter/util"
 
 	"verifharness/rig"
@@ -32,6 +31,8 @@ type Impl struct {
 	shards int
 	api    *apiSim // API-backed store mode only
 	w      *wire   // wire mode only
+	ups    map[string]bool // every upstream name a `list` op of the history has named (cluster keys can only be these)
+	fcs    map[string]bool // every flow-control schema name a `list` op has named
 }
 
 func newImpl(shards int, store string, wireMode bool) *Impl {
@@ -44,6 +45,7 @@ func newImpl(shards int, store string, wireMode bool) *Impl {
 		g := limiter.VerifC18New("verif-limiter", shards)
 		im = &Impl{g: g, lim: g.VerifC18Limiter(), shards: shards}
 	}
+	im.ups, im.fcs = map[string]bool{}, map[string]bool{"nope": true}
 	if wireMode {
 		w, err := newWire(im.lim)
 		if err != nil {
@@ -128,6 +130,9 @@ func (im *Impl) schemaKind(u, fc string) string {
 	return ""
 }
 
+// errAmbiguous: the reduced observation (public strings only) cannot take a DebugInfo() string apart for these ids.
+var errAmbiguous = fmt.Errorf("ambiguous DebugInfo")
+
 var debugRe = regexp.MustCompile(`(?s)^name=(.*) max=(-?\d+) count=(-?\d+) total=(-?\d+) details=(.*)$`)
 
 // observe reads the whole recorded state of the real limiter: heartbeat table (AllClients), leadership, every
@@ -141,55 +146,51 @@ func (im *Impl) observe() (StateJ, error) {
 	s.Leaders = im.g.VerifC18Leaders()
 	for sh, st := range im.g.VerifC18Stores() {
 		s.Shards = append(s.Shards, sh)
-		if im.api != nil {
-			// the API-backed store answers from its cache: that is what the limiter sees and what is judged
-			cache, ok := k8sstore.VerifC18Cache(st)
-			if !ok {
-				return s, fmt.Errorf("store of shard %d is not the API-backed store", sh)
+		// conditions: the store's own List (an API-backed store answers from its cache: what the limiter sees)
+		perUpstream := map[string]int{}
+		for _, c := range st.List(labels.Everything()) {
+			perUpstream[c.Spec.UpstreamCluster]++
+			cj := CondJ{Sh: sh, Name: rig.Hex(c.Name), U: rig.Hex(c.Spec.UpstreamCluster), I: rig.Hex(c.Spec.Instance)}
+			if l, ok := c.Labels[limiter.RateLimitConditionInstanceLabel]; ok {
+				h := rig.Hex(l)
+				cj.Label = &h
 			}
-			st = cache
+			for _, it := range c.Spec.LimitItemConfigurations {
+				cj.Items = append(cj.Items, detailJ(it.Name, it.LimitItemDetail))
+			}
+			if c.Name == c.Spec.UpstreamCluster+".state" {
+				for _, it := range c.Status.LimitItemStatuses {
+					cj.Status = append(cj.Status, detailJ(it.Name, it.LimitItemDetail))
+				}
+			}
+			s.Conds = append(s.Conds, cj)
 		}
-		clusters, ok := local.VerifC18Dump(st)
-		if !ok {
-			return s, fmt.Errorf("store of shard %d is not the local store", sh)
-		}
-		for _, cl := range clusters {
-			if len(cl.Spec.Schemas) > 0 {
-				cj := ClusterJ{Sh: sh, U: rig.Hex(cl.Name)}
-				for _, sc := range cl.Spec.Schemas {
-					cj.Spec = append(cj.Spec, schemaJ(sc))
-				}
-				s.Clusters = append(s.Clusters, cj)
+		for u := range im.ups {
+			// every condition is stored under the cluster key its Spec.UpstreamCluster names
+			if n := len(st.ListUpstream(u)); n != perUpstream[u] {
+				return s, fmt.Errorf("ListUpstream(%q) answers %d conditions, List() holds %d of that upstream", u, n, perUpstream[u])
 			}
-			// the dump must agree with the public ListUpstream
-			if len(st.ListUpstream(cl.Name)) != len(cl.Conditions) {
-				return s, fmt.Errorf("ListUpstream(%q) and the store dump disagree", cl.Name)
-			}
-			for _, c := range cl.Conditions {
-				cj := CondJ{Sh: sh, Name: rig.Hex(c.Name), U: rig.Hex(c.Spec.UpstreamCluster), I: rig.Hex(c.Spec.Instance)}
-				if cl.Name != c.Spec.UpstreamCluster {
-					return s, fmt.Errorf("condition %q of upstream %q stored under cluster key %q", c.Name, c.Spec.UpstreamCluster, cl.Name)
-				}
-				if l, ok := c.Labels[limiter.RateLimitConditionInstanceLabel]; ok {
-					h := rig.Hex(l)
-					cj.Label = &h
-				}
-				for _, it := range c.Spec.LimitItemConfigurations {
-					cj.Items = append(cj.Items, detailJ(it.Name, it.LimitItemDetail))
-				}
-				if c.Name == c.Spec.UpstreamCluster+".state" {
-					for _, it := range c.Status.LimitItemStatuses {
-						cj.Status = append(cj.Status, detailJ(it.Name, it.LimitItemDetail))
-					}
-				}
-				s.Conds = append(s.Conds, cj)
-			}
-			for name, fc := range cl.FlowControls {
-				v, ok := flowcontrol.VerifC18Inspect(fc)
+			delete(perUpstream, u)
+			if specObservable {
+				spec, ok := clusterSpec(st, u)
 				if !ok {
-					return s, fmt.Errorf("unknown flow control implementation %T", fc)
+					return s, fmt.Errorf("store of shard %d is neither the local nor the API-backed store", sh)
 				}
-				fj := FCJ{Sh: sh, U: rig.Hex(cl.Name), Name: rig.Hex(name), Mif: v.IsMif, Max: int64(v.Max), Burst: int64(v.Burst), Count: int64(v.Count)}
+				if len(spec) > 0 {
+					s.Clusters = append(s.Clusters, ClusterJ{Sh: sh, U: rig.Hex(u), Spec: spec})
+				}
+			}
+			// flow controls: GetFlowControl over every schema name the history has ever listed
+			for name := range im.fcs {
+				fc, e := st.GetFlowControl(u, name)
+				if e != nil {
+					continue
+				}
+				v, e := inspectFC(fc)
+				if e != nil {
+					return s, e
+				}
+				fj := FCJ{Sh: sh, U: rig.Hex(u), Name: rig.Hex(name), Mif: v.IsMif, Max: v.Max, Burst: v.Burst, Count: v.Count}
 				var total int64
 				for i, st := range v.States {
 					fj.States = append(fj.States, StEntry{I: rig.Hex(i), Count: st[0], ReqID: st[1]})
@@ -209,6 +210,11 @@ func (im *Impl) observe() (StateJ, error) {
 					}
 				}
 				s.Fcs = append(s.Fcs, fj)
+			}
+		}
+		for u, n := range perUpstream {
+			if n > 0 {
+				return s, fmt.Errorf("%d conditions of upstream %q, which no history op ever listed", n, u)
 			}
 		}
 	}
@@ -274,8 +280,10 @@ func (im *Impl) apply(op Op) (out OutJ, quota []ItemJ, err error) {
 		im.g.VerifC18LeaderCheck()
 	case "list":
 		c := &proxyv1alpha1.UpstreamCluster{ObjectMeta: metav1.ObjectMeta{Name: u}}
+		im.ups[u] = true
 		for _, s := range op.Schemas {
 			c.Spec.FlowControl.Schemas = append(c.Spec.FlowControl.Schemas, schemaOf(s))
+			im.fcs[rig.UnHex(s.Name)] = true
 		}
 		err = im.g.VerifC18List(c)
 	case "unlist":
@@ -425,7 +433,7 @@ func (im *Impl) apply(op Op) (out OutJ, quota []ItemJ, err error) {
 		quota = nil
 		if st := im.g.VerifC18Stores()[util.GetShardID(u, im.shards)]; st != nil && im.g.VerifC18IsLeader(util.GetShardID(u, im.shards)) {
 			if f, e := st.GetFlowControl(u, fc); e == nil {
-				if v, ok := flowcontrol.VerifC18Inspect(f); ok && v.IsMif {
+				if v, e := inspectFC(f); e == nil && v.IsMif {
 					if x, ok := v.States[inst]; ok {
 						out.St = &[2]int64{x[0], x[1]}
 					}
